@@ -276,6 +276,15 @@ static std::string step(const Toks& t)
 		delete ps;
 		return out;
 	}
+	if (op == "cvalid" && t.size() == 2) {
+		PStr ps(unhex(t[1]));
+		const String& s = *ps.s;
+		String u = s.toUpperCase(), l = s.toLowerCase();
+		String ru = String::fromCodes(u.chars()), rl = String::fromCodes(l.chars());
+		bool vu = ru.length() == u.length() && memcmp(ru.data(), u.data(), u.length()) == 0;
+		bool vl = rl.length() == l.length() && memcmp(rl.data(), l.data(), l.length()) == 0;
+		return str(s.count()) + " " + str(u.count()) + " " + str(l.count()) + " " + (vu ? "1" : "0") + " " + (vl ? "1" : "0");
+	}
 	if (op == "wlen" && t.size() == 2) {
 		PStr ps(unhex(t[1]));
 		ps.unlock();   // dataw() resizes the buffer
